@@ -162,6 +162,35 @@ class Elem:
         return "%s%s" % (self.kind, self.gid or "")
 
 
+MODE = ["match"]     # how the caller applies the pattern: "match" (default), "search", "fullmatch"
+
+
+def set_mode(mode):
+    if mode not in ("match", "search", "fullmatch"):
+        raise Unsupported("pattern applied with %r" % (mode,))
+    MODE[0] = mode
+
+
+def call_mode(fn, attr="_regex_prog"):
+    """Which re method a function applies to its compiled pattern (read from the live AST)."""
+    import ast
+    import inspect
+    import textwrap
+    src = textwrap.dedent(inspect.getsource(fn))
+    modes = set()
+    for n in ast.walk(ast.parse(src)):
+        if isinstance(n, ast.Call) and isinstance(n.func, ast.Attribute) and n.func.attr in ("match", "search", "fullmatch", "findall", "finditer", "split", "sub"):
+            base = ast.unparse(n.func.value)
+            if attr in base or "regex" in base or "prog" in base:
+                modes.add(n.func.attr)
+    if len(modes) != 1:
+        raise Unsupported("cannot tell how the pattern is applied: %s" % sorted(modes))
+    m = modes.pop()
+    if m not in ("match", "search", "fullmatch"):
+        raise Unsupported("pattern applied with .%s()" % m)
+    return m
+
+
 def flatten(pattern: str):
     """Live pattern -> (elements, ngroups).  Raises Unsupported when the pattern is not flat."""
     tree = P.parse(pattern)
@@ -169,9 +198,16 @@ def flatten(pattern: str):
         raise Unsupported("inline flags")
     els: list = []
     _flat(tree, els, top=True)
-    if not els or els[-1].kind != "end":
-        # re.match() without a final `$` accepts every string with a matching *prefix*
+    if MODE[0] == "fullmatch":
+        if els and els[-1].kind == "end":
+            pass
+    elif not els or els[-1].kind != "end":
+        # re.match()/search() without a final `$` accept every string with a matching *prefix*
         els.append(Elem("tail"))
+    if MODE[0] == "search" and not (list(tree) and list(tree)[0] == (C.AT, C.AT_BEGINNING)):
+        # re.search() without a leading `^`: any text may precede the match (leftmost match wins;
+        # captures are then not decided by the flat analysis)
+        els.insert(0, Elem("head"))
     # merge adjacent literals
     out: list = []
     for e in els:
@@ -250,7 +286,7 @@ def els_to_re(els):
         elif e.kind == "end":
             # `$` without MULTILINE: at the end, or just before a final newline
             parts.append(z3.Option(z3.Re(z3.StringVal("\n"))))
-        elif e.kind == "tail":
+        elif e.kind in ("tail", "head"):
             parts.append(z3.Star(cs_to_re(ANY_CS)))
         elif e.kind in ("open", "close"):
             continue
@@ -276,8 +312,10 @@ def pattern_to_re(pattern: str):
             raise Unsupported("inline flags")
         items = list(tree)
         r = _gen(items, top=True)
-        if not items or items[-1] != (C.AT, C.AT_END):
+        if MODE[0] != "fullmatch" and (not items or items[-1] != (C.AT, C.AT_END)):
             r = z3.Concat(r, z3.Star(cs_to_re(ANY_CS)))
+        if MODE[0] == "search" and not (items and items[0] == (C.AT, C.AT_BEGINNING)):
+            r = z3.Concat(z3.Star(cs_to_re(ANY_CS)), r)
         return r
 
 
